@@ -172,8 +172,23 @@ def compare_slices(model, data, f, st, ch, slices, eager_vals):
     return dis, vio
 
 
-def real_op(f, its, op):
-    """execute one op of a history on the real open file; returns canonical output"""
+def observe_chunk(kind, chunk):
+    """what a delivered chunk object says about itself NOW (a chunk must stay what it was when it was delivered)"""
+    if kind == "c":
+        return dict(v=chan_chunk(chunk._raw_data), offset=int(chunk.offset))
+    cc, offs = [], []
+    for g in chunk.groups():
+        for c in g.channels():
+            raw = c._raw_data
+            if raw.data is not None or raw.scaler_data is not None:
+                cc.append([c._channel.path.encode("utf-8").hex(), chan_chunk(raw)])
+            offs.append([c._channel.path.encode("utf-8").hex(), int(c.offset)])
+    return dict(v=cc, offsets=offs)
+
+
+def real_op(f, its, op, keep=None):
+    """execute one op of a history on the real open file; returns canonical output. `keep`: a list that receives every delivered
+    chunk object (kind, chunk) BEFORE it is looked at, so that the caller can look at it later"""
     chans = {c.path.encode("utf-8"): c for c in channels_of(f)}
     k = op[0]
     try:
@@ -199,6 +214,9 @@ def real_op(f, its, op):
                 chunk = next(gen)
             except StopIteration:
                 return dict(k="stop")
+            if keep is not None:
+                keep.append((kind, chunk))
+                # looked at only after the history has gone on (first look = late look): report what a fresh look gives now
             if kind == "c":
                 raw = chunk._raw_data
                 return dict(k="chanchunk", v=chan_chunk(raw), offset=int(chunk.offset))
